@@ -4730,6 +4730,11 @@ void SoPlexBase<R>::_untransformFeasibility(SolRational& sol, bool infeasible)
 
       sol._dualFarkas = sol._dual;
 
+      // the dual multipliers of the auxiliary problem follow the sign convention of the objective sense, the Farkas
+      // proof does not (it is >= 0 on left-hand sides, <= 0 on right-hand sides for both senses)
+      if(intParam(SoPlexBase<R>::OBJSENSE) == SoPlexBase<R>::OBJSENSE_MAXIMIZE)
+         sol._dualFarkas *= -1;
+
       _hasBasis = false;
       _basisStatusCols.reSize(numOrigCols);
    }
